@@ -2,7 +2,8 @@
 """keepseed.py <srcdir> <x> <property> '<json from seedtest>'  -> /verif/seeded/<property>-<x>/"""
 import json, os, shutil, sys
 src, x, prop, res = sys.argv[1], sys.argv[2], sys.argv[3], json.loads(sys.argv[4])
-dst = os.path.join(os.path.dirname(os.path.dirname(os.path.abspath(__file__))), "seeded", "%s-%s" % (prop, x))
+tag = sys.argv[5] if len(sys.argv) > 5 else ""
+dst = os.path.join(os.path.dirname(os.path.dirname(os.path.abspath(__file__))), "seeded", "%s-%s%s" % (prop, tag, x))
 os.makedirs(dst, exist_ok=True)
 shutil.copy(os.path.join(src, x + ".patch.diff"), os.path.join(dst, "patch.diff"))
 shutil.copy(os.path.join(src, x + ".demo.py"), os.path.join(dst, "demo.py"))
